@@ -141,7 +141,10 @@ def exhaustive_tasks(max_n, chunks_last):
 
 
 def run(ck: Check):
+    import time
+    t0 = time.time()
     ck.prove(exes=[EXE])
+    t_prove = time.time() - t0
     Driver(EXE)
     ck.rule = ("graphs = real Graph objects with real Node objects (stub subclass), edges added with add_edge/add_catch_edge; "
                "exhaustive: every digraph (self loops included) on 1..4 labelled nodes with entry 0 (thorough: 1..5, 2^25 graphs); "
@@ -154,7 +157,10 @@ def run(ck: Check):
     per = nrand // 32
     tasks += [{"kind": "random", "seed": "C18/%d/%d" % (ck.seed, i), "count": per, "max_n": 300, "module": MODULE}
               for i in range(32)]
+    t0 = time.time()
     tags, total = sweep(ck, "dom", tasks, NPROC)
+    ck.notes.append("wall: proof leg (lake build under the shared lock + axiom audit) %.1fs, correspondence+search sweep on %d processes %.1fs"
+                    % (t_prove, NPROC, time.time() - t0))
     ck.cover(dist=dict({k: v for k, v in sorted(tags.items())},
                        model_answers_certified_by_checkDomTree=total["certified"], model_answers_uncertified=total["uncertified"]))
     ck.partial.append("domlt_correct_full (Lengauer-Tarjan's semidominator theorems for the model, i.e. 'the model never produces a tree "
